@@ -18,6 +18,16 @@ var specs = []*Spec{
 		Outside: []string{"identifiers longer than the stated lengths", "ExpandedNodeID.String (drops URI and server index by design)", "GUID NodeIDs built from an unparsable GUID string (gid == nil)"},
 		Stubs:   []string{"fmt.Sprintf: exact model for the verbs used here (%d of unsigned ints by digit extraction with a fork per digit count, %s, %0*X); strconv/strings/base64/hex executed from their SSA"},
 	},
+	{
+		ID: "C24", Title: "Endpoint selection returns a best matching endpoint",
+		Quick:    Tier{Groups: G("root", "^VerifH_C24_"), Params: map[string]int{"c24.n": 3}, Budget: 200 * time.Second},
+		Thorough: Tier{Groups: G("root", "^VerifH_C24_"), Params: map[string]int{"c24.n": 4}, Budget: 40 * time.Minute},
+		Reach:    []string{"VerifH_C24_Select:match", "VerifH_C24_Select:nomatch"},
+		Bounds: []string{"endpoint lists of length 0..c24.n (3 quick, 4 thorough); per endpoint: security level any uint8, mode any of 0..3, policy one of {None, Basic256Sha256, Aes256_Sha256_RsaPss, empty, unknown URI}",
+			"query: policy one of {\"\", None, Basic256Sha256, Aes256 URI, Aes256Sha256RsaPss, Basic128Rsa15 (absent from every list)} as short name or URI, mode any of 0..3"},
+		Outside: []string{"longer lists; policy strings outside the enumerated set (string comparison is by equality, so other strings behave like the 'unknown' representative)"},
+		Stubs:   []string{"errors.Errorf message text is opaque; sort.Sort/sort.Reverse executed from their SSA"},
+	},
 }
 
 func findSpec(id string) *Spec {
